@@ -51,6 +51,7 @@ type pcState struct {
 	reqErr  map[ssa.Value]bool // err results of buffer requests (nil on the path we follow)
 	alias   map[ssa.Value]ssa.Value // phi -> the value it carries on this path
 	slen    map[ssa.Value]int64     // slices of known length that are not views of a request
+	errKnown map[ssa.Value]int      // error values known nil (+1) / non-nil (-1) from an evaluated callee
 	free    bool
 	visited map[*ssa.BasicBlock]bool
 }
@@ -59,6 +60,12 @@ func (s *pcState) clone() *pcState {
 	n := &pcState{conds: map[string]bool{}, ints: map[ssa.Value]int64{}, bufs: map[ssa.Value]pcBuf{}, reqErr: map[ssa.Value]bool{}, alias: map[ssa.Value]ssa.Value{}, slen: map[ssa.Value]int64{}, free: s.free, visited: map[*ssa.BasicBlock]bool{}}
 	for k, v := range s.slen {
 		n.slen[k] = v
+	}
+	if s.errKnown != nil {
+		n.errKnown = map[ssa.Value]int{}
+		for k, v := range s.errKnown {
+			n.errKnown[k] = v
+		}
 	}
 	for k, v := range s.alias {
 		n.alias[k] = v
@@ -97,7 +104,19 @@ type PCHole struct {
 	Conds string
 }
 
+type helperAlt struct {
+	val    int64
+	ok     bool
+	errNil int // +1 the error result is the nil constant, -1 it is not nil, 0 unknown / no error result
+	conds map[string]bool
+	order []string
+	free  bool
+}
+
 type pcover struct {
+	keyPrefix string
+	depth   int
+	rets    *[]helperAlt
 	fn      *ssa.Function
 	helper  func(*ssa.Function) (byteSet, bool)
 	holes   map[*ssa.Call]*PCHole
@@ -138,7 +157,10 @@ func (pc *pcover) freeKey(v ssa.Value, st *pcState) (string, bool, bool) {
 		}
 		switch b := base.(type) {
 		case *ssa.Parameter:
-			return b.Name() + "." + pth, true
+			if fnOf := b.Parent(); fnOf != nil && fnOf.Signature.Recv() != nil && len(fnOf.Params) > 0 && fnOf.Params[0] == b {
+				return pc.keyPrefix + "recv." + pth, true
+			}
+			return pc.keyPrefix + b.Name() + "." + pth, true
 		case *ssa.Alloc:
 			// a spilled by-value parameter (value receiver, opts)
 			for _, r := range *b.Referrers() {
@@ -428,6 +450,14 @@ func (pc *pcover) call(x *ssa.Call, st *pcState) {
 			if pc.isLayerData(a) {
 				st.ints[x] = 0
 			}
+			// len(*p) of a pointer parameter to a list of the layer
+			if ld, ok := a.(*ssa.UnOp); ok && ld.Op == token.MUL {
+				if _, isParam := ld.X.(*ssa.Parameter); isParam && pc.depth > 0 {
+					if _, isSl := a.Type().Underlying().(*types.Slice); isSl {
+						st.ints[x] = 0
+					}
+				}
+			}
 		case "copy":
 			if b, ok := st.bufs[bc.Args[0]]; ok {
 				r := st.reqs[b.req]
@@ -538,7 +568,27 @@ func (pc *pcover) walk(b *ssa.BasicBlock, pred *ssa.BasicBlock, st *pcState) {
 		return // zero further loop iterations: the path that re-enters is not followed
 	}
 	st.visited[b] = true
-	for _, ins := range b.Instrs {
+	pc.walkFrom(b, 0, pred, st)
+}
+
+func (pc *pcover) walkFrom(b *ssa.BasicBlock, from int, pred *ssa.BasicBlock, st *pcState) {
+	for idx := from; idx < len(b.Instrs); idx++ {
+		ins := b.Instrs[idx]
+		// a method of the same layer object whose integer result is needed (size helpers): evaluate it
+		if call, ok := ins.(*ssa.Call); ok && pc.depth < 2 {
+			if alts, ok := pc.evalHelper(call, st); ok {
+				if len(alts) == 1 {
+					pc.applyAlt(call, alts[0], st)
+					continue
+				}
+				for _, a := range alts {
+					s2 := st.clone()
+					pc.applyAlt(call, a, s2)
+					pc.walkFrom(b, idx+1, pred, s2)
+				}
+				return
+			}
+		}
 		switch x := ins.(type) {
 		case *ssa.If:
 			pc.branch(b, x, st)
@@ -579,9 +629,9 @@ func (pc *pcover) branch(b *ssa.BasicBlock, iff *ssa.If, st *pcState) {
 			follow(bo.Op == token.EQL, st)
 			return
 		}
-		if e != nil && canBeNilError(e) {
-			// the callee has a successful return: follow the success side (the scenario in which it succeeds)
-			follow(bo.Op == token.EQL, st)
+		if e != nil && st.errKnown != nil && st.errKnown[e] != 0 {
+			isNil := st.errKnown[e] > 0
+			follow((bo.Op == token.EQL) == isNil, st)
 			return
 		}
 		// concrete comparison
@@ -635,6 +685,28 @@ unknown:
 
 func (pc *pcover) finish(ret *ssa.Return, st *pcState) {
 	pc.nPaths++
+	if pc.rets != nil {
+		a := helperAlt{conds: map[string]bool{}, order: append([]string(nil), st.order...), free: st.free}
+		for k, v := range st.conds {
+			a.conds[k] = v
+		}
+		if len(ret.Results) > 0 {
+			if v, ok := pc.intOf(core.RetOperand(ret, 0), st); ok {
+				a.val, a.ok = v, true
+			}
+			last := core.RetOperand(ret, len(ret.Results)-1)
+			if _, isIface := last.Type().Underlying().(*types.Interface); isIface {
+				switch {
+				case core.IsNilConst(last):
+					a.errNil = +1
+				case isFreshError(last):
+					a.errNil = -1
+				}
+			}
+		}
+		*pc.rets = append(*pc.rets, a)
+		return
+	}
 	// successful return: the error result is the nil constant
 	if len(ret.Results) > 0 {
 		last := core.RetOperand(ret, len(ret.Results)-1)
@@ -715,4 +787,133 @@ func canBeNilError(e ssa.Value) bool {
 		}
 	}
 	return false
+}
+
+// evalHelper: call is a static call of a method on the same receiver object
+// as the function being walked, returning an integer first result: walk it
+// with the same condition memo and return its possible results.
+func (pc *pcover) evalHelper(call *ssa.Call, st *pcState) ([]helperAlt, bool) {
+	f := call.Call.StaticCallee()
+	if f == nil || len(f.Blocks) == 0 || f.Pkg == nil || !strings.HasPrefix(f.Pkg.Pkg.Path(), core.Mod) || pc.fn.Signature.Recv() == nil {
+		return nil, false
+	}
+	res := f.Signature.Results()
+	if res.Len() == 0 {
+		return nil, false
+	}
+	intFirst := false
+	if bt, ok := res.At(0).Type().Underlying().(*types.Basic); ok && bt.Info()&types.IsInteger != 0 {
+		intFirst = true
+	}
+	errLast := false
+	if _, ok := res.At(res.Len() - 1).Type().Underlying().(*types.Interface); ok && res.At(res.Len()-1).Type().String() == "error" {
+		errLast = true
+	}
+	if !intFirst && !errLast {
+		return nil, false
+	}
+	if call.Referrers() == nil || len(*call.Referrers()) == 0 {
+		return nil, false
+	}
+	// the callee must not receive a view of a buffer request (those are handled as writers)
+	for _, a := range call.Call.Args {
+		if _, isBuf := st.bufs[a]; isBuf {
+			return nil, false
+		}
+	}
+	var rets []helperAlt
+	sub := &pcover{fn: f, helper: pc.helper, holes: map[*ssa.Call]*PCHole{}, okPaths: map[*ssa.Call]int{}, undec: map[*ssa.Call]string{}, limit: 2000, depth: pc.depth + 1, rets: &rets, keyPrefix: fmt.Sprintf("%scall@%d:", pc.keyPrefix, call.Pos())}
+	s2 := &pcState{conds: map[string]bool{}, ints: map[ssa.Value]int64{}, bufs: map[ssa.Value]pcBuf{}, reqErr: map[ssa.Value]bool{}, alias: map[ssa.Value]ssa.Value{}, slen: map[ssa.Value]int64{}, free: st.free, visited: map[*ssa.BasicBlock]bool{}}
+	for k, v := range st.conds {
+		s2.conds[k] = v
+	}
+	s2.order = append(s2.order, st.order...)
+	sameRecv := false
+	for i, pa := range f.Params {
+		if i >= len(call.Call.Args) {
+			break
+		}
+		arg := call.Call.Args[i]
+		if v, ok := pc.intOf(arg, st); ok {
+			s2.ints[pa] = v
+		}
+		if n, ok := st.slen[arg]; ok {
+			s2.slen[pa] = n
+		}
+		if al, ok := st.alias[arg]; ok {
+			arg = al
+		}
+		if i == 0 && f.Signature.Recv() != nil && arg == ssa.Value(pc.fn.Params[0]) && pc.depth == 0 {
+			sameRecv = true
+		}
+		// a slice or string taken from the layer is empty in the scenario
+		if pc.isLayerData(arg) {
+			s2.slen[pa] = 0
+		}
+	}
+	if sameRecv {
+		sub.keyPrefix = pc.keyPrefix // the callee's receiver is the same object: its field tests are the caller's
+	}
+	sub.walk(f.Blocks[0], nil, s2)
+	if len(rets) == 0 || len(rets) > 32 {
+		return nil, false
+	}
+	return rets, true
+}
+
+// isFreshError: v is the result of errors.New / fmt.Errorf (certainly not nil).
+func isFreshError(v ssa.Value) bool {
+	if mi, ok := v.(*ssa.MakeInterface); ok {
+		v = mi.X
+	}
+	c, ok := v.(*ssa.Call)
+	if !ok {
+		return false
+	}
+	f := c.Call.StaticCallee()
+	if f == nil || f.Pkg == nil {
+		return false
+	}
+	return (f.Pkg.Pkg.Path() == "errors" && f.Name() == "New") || (f.Pkg.Pkg.Path() == "fmt" && f.Name() == "Errorf")
+}
+
+func (pc *pcover) applyAlt(call *ssa.Call, a helperAlt, st *pcState) {
+	for k, v := range a.conds {
+		st.conds[k] = v
+	}
+	st.order = a.order
+	if !a.free {
+		st.free = false
+	}
+	// the error result
+	if a.errNil != 0 {
+		var ev ssa.Value
+		if tup, isTuple := call.Type().(*types.Tuple); isTuple {
+			for _, r := range *call.Referrers() {
+				if e, ok := r.(*ssa.Extract); ok && e.Index == tup.Len()-1 {
+					ev = e
+				}
+			}
+		} else {
+			ev = call
+		}
+		if ev != nil {
+			if st.errKnown == nil {
+				st.errKnown = map[ssa.Value]int{}
+			}
+			st.errKnown[ev] = a.errNil
+		}
+	}
+	// the result value: plain or first of a tuple
+	if a.ok {
+		if _, isTuple := call.Type().(*types.Tuple); isTuple {
+			for _, r := range *call.Referrers() {
+				if e, ok := r.(*ssa.Extract); ok && e.Index == 0 {
+					st.ints[e] = a.val
+				}
+			}
+		} else {
+			st.ints[call] = a.val
+		}
+	}
 }
